@@ -73,6 +73,10 @@ def points(rec):
         src = g.integers(0, n, n)
         ra = np.where(m, ra[src], ra)
         dec = np.where(m, dec[src], dec)
+        # and runs of identical CONSECUTIVE positions
+        adj = np.nonzero(g.random(n - 1) < 0.25)[0]
+        for i in adj:
+            ra[i + 1], dec[i + 1] = ra[i], dec[i]
     if rec.get("round"):
         ra = np.round(ra, rec["round"])
         dec = np.round(dec, rec["round"])
@@ -199,7 +203,9 @@ def plan(S, prop, mode, tier, avoid):
                 o = {"k": "oneshot", "H": "h%d" % c, "depth": od, "fill": fill, "q": q, "self": q is fill,
                      "radius": orad if chance(r, 0.7) else float("%.4g" % (orad * r.uniform(0.1, 1.0))),
                      "maxmatch": wpick(r, [(-1, 3), (0, 1), (1, 3), (2, 2), (r.randrange(3, 8), 1)]),
-                     "sink": wpick(r, [("mem", 3), ("file", 1)]), "path": "c%d_o.txt" % c,
+                     "sink": wpick(r, [("mem", 3), ("file", 1.5)]),
+                     # the same output names as the matcher's calls use: one name is written by both entry points
+                     "path": pick(r, ["c%d_o.txt" % c, "c%d_p0.txt" % c, "c%d_p1.txt" % c]),
                      "newbuf": chance(r, 0.15), "c": c}
                 ops.insert(r.randrange(1, len(ops) + 1), o)
         if chance(r, 0.35):
